@@ -13,6 +13,7 @@ package main
 import (
 	"bytes"
 	"fmt"
+	"net"
 
 	"github.com/miekg/dns"
 	"github.com/semihalev/sdns/internal/mock"
@@ -117,8 +118,8 @@ func libAssumptions(seed uint64, profile string) (records, monoViol, hroomViol, 
 	for si, sec := range [][]dns.RR{b.m.Answer, b.m.Ns, b.m.Extra} {
 		for i, rr := range sec {
 			k := b.kinds[si][i]
-			if k == "n" || k == "f" {
-				continue
+			if k == "n" || k == "f" || !wire.VerifAdmissibleRR(rr) {
+				continue // the assumptions are about what the pooled packer ADMITS
 			}
 			for _, variant := range []struct {
 				off  int
@@ -208,4 +209,26 @@ func writeWhileBorrowed() bool {
 		}
 	}
 	return true
+}
+
+// admissionOfSkipWriters: the compiled admissibleRR on the records whose library
+// packing skips bytes (must be refused: 0) and on their harmless look-alikes (1).
+func admissionOfSkipWriters() []int {
+	v6, mapped, v4 := net.ParseIP("2001:db8::1"), net.ParseIP("192.0.2.33"), net.IPv4(192, 0, 2, 33).To4()
+	h := func(t uint16) dns.RR_Header { return dns.RR_Header{Name: "x.", Rrtype: t, Class: dns.ClassINET} }
+	rrs := []dns.RR{
+		&dns.A{Hdr: h(dns.TypeA), A: v6}, &dns.A{Hdr: h(dns.TypeA), A: mapped}, &dns.A{Hdr: h(dns.TypeA), A: v4}, &dns.A{Hdr: h(dns.TypeA)},
+		&dns.L32{Hdr: h(dns.TypeL32), Locator32: v6}, &dns.L32{Hdr: h(dns.TypeL32), Locator32: v4},
+		&dns.IPSECKEY{Hdr: h(dns.TypeIPSECKEY), GatewayType: dns.IPSECGatewayIPv4, GatewayAddr: v6}, &dns.IPSECKEY{Hdr: h(dns.TypeIPSECKEY), GatewayType: dns.IPSECGatewayIPv6, GatewayAddr: v6},
+		&dns.AMTRELAY{Hdr: h(dns.TypeAMTRELAY), GatewayType: dns.AMTRELAYIPv4, GatewayAddr: v6}, &dns.AMTRELAY{Hdr: h(dns.TypeAMTRELAY), GatewayType: dns.AMTRELAYIPv6, GatewayAddr: v6},
+	}
+	var out []int
+	for _, rr := range rrs {
+		if wire.VerifAdmissibleRR(rr) {
+			out = append(out, 1)
+		} else {
+			out = append(out, 0)
+		}
+	}
+	return out
 }
